@@ -185,6 +185,16 @@ class PosGen:
         return self.last.copy()
 
 
+def call_positions(srf, pos):
+    """the positions SRF.__call__ hands to the generator for the PRESENT model: isometrized, except for vector
+    fields of isotropic non-lat-lon models, which are evaluated in the given coordinates (/repo fa84f81: the rotation
+    angles of an isotropic model must not de-rotate the positions of an incompressible vector field)"""
+    m = srf.model
+    if srf.value_type == "vector" and not m.latlon and m.is_isotropic:
+        return np.ascontiguousarray(np.asarray(pos, dtype=np.double).reshape((m.dim, -1)))
+    return m.isometrize(pos)
+
+
 def master_of(gen):
     return gen._rng._master_rng._master_rng_fct
 
@@ -358,7 +368,7 @@ def run_plan_rm(ctx, gs, drv, plan):
             n = pos.shape[1]
             store = {"field": True, "f2": "f2", "none": False}[op[3]]
             midx = tbl.idx(srf.model)
-            iso = srf.model.isometrize(pos)
+            iso = call_positions(srf, pos)
             fld = srf(pos, seed=o, store=store)
             gops.append([0, midx, kd, v, tok])
             observe(mid=True)      # SRF.__call__ is one step of the implementation: the stream position is seen after it
@@ -592,7 +602,7 @@ def run_plan_fo(ctx, gs, drv, plan):
             n = pos.shape[1]
             store = {"field": True, "f2": "f2", "none": False}[op[3]]
             midx = tbl.idx(srf.model)
-            iso = srf.model.isometrize(pos)
+            iso = call_positions(srf, pos)
             fld = srf(pos, seed=o, store=store)
             gops.append([0, midx, kd, v, tok, -1, -1])
             observe(mid=True)
